@@ -314,6 +314,7 @@ func (bs *baseServer) Handshake(transportName string, ctx *types.HttpContext) (*
 		transport.SetMaxHttpBufferSize(bs.opts.MaxHttpBufferSize())
 		transport.SetHttpCompression(bs.opts.HttpCompression())
 	} else if transports.WEBSOCKET == transportName {
+		transport.SetMaxHttpBufferSize(bs.opts.MaxHttpBufferSize())
 		transport.SetPerMessageDeflate(bs.opts.PerMessageDeflate())
 	} else if transports.WEBTRANSPORT == transportName {
 		transport.SetMaxHttpBufferSize(bs.opts.MaxHttpBufferSize())
